@@ -51,6 +51,7 @@ type printer struct {
 	st      *Style
 	cc      int  // comment counter
 	ea      int  // empty-annotation counter
+	hn      int  // enum head-note counter
 	nn      int  // next-line-note counter
 	ann     int  // annotation counter (MixedAnn)
 	inMulti bool // inside a /* */ annotation
@@ -202,6 +203,12 @@ func (p *printer) ruleValue(r *ref.SRule, spread bool, level int) {
 		if noted && p.inMulti {
 			// one item per line, each with its own inline note (only possible inside /* */)
 			p.w("[")
+			if p.st.AutoItemNotes {
+				p.hn++
+				if p.hn%2 == 1 {
+					p.w(" // a comment before the first value belongs to no value")
+				}
+			}
 			for i, it := range r.Enum {
 				p.w(p.st.NL)
 				p.indent(level + 3)
